@@ -472,7 +472,7 @@ def c11(tier, seed):
       "all-zero element. Wrong bytes on a later read (aliasing) are caught by the functional oracles of the same search",
       ["use-after-free of an aliased caller buffer is reported by ASan as well"],
       [need("copies_verified", 100000), need("inputs_scribbled", 100000), forbid("replay_divergence")],
-      classes=["ownership:*", "asan:*use-after-free*", "asan:*double-free*", "asan:*bad-free*", "map:get-value", "map:get-missing", "multimap:get-first-match", "seq:get-value", "array:get-value", "seq:content", "array:content", "image:get-value", "walk:value"])
+      classes=["ownership:*", "fmt:*", "asan:*use-after-free*", "asan:*double-free*", "asan:*bad-free*", "map:get-value", "map:get-missing", "multimap:get-first-match", "seq:get-value", "array:get-value", "seq:content", "array:content", "image:get-value", "walk:value"])
 def c12(tier, seed):
     return all_container_jobs(tier)
 
